@@ -16,6 +16,15 @@ ROUGH = ("const", "steps", "quantised")
 
 
 def evaluate(obj, u):
+    """Value at the normalised point u.  An optional "offset" is added to the family's value (objectives whose
+    level is large compared with their variation)."""
+    off = obj.get("offset")
+    if off:
+        return _evaluate(obj, u) + off
+    return _evaluate(obj, u)
+
+
+def _evaluate(obj, u):
     fam = obj["family"]
     if fam == "cones":
         best = None
@@ -54,6 +63,10 @@ def evaluate(obj, u):
 
 
 def exact_min(obj):
+    return _exact_min(obj) + (obj.get("offset") or 0.0)
+
+
+def _exact_min(obj):
     fam = obj["family"]
     if fam == "cones":
         return min(obj["c"])
